@@ -103,7 +103,19 @@ TInvReal ==
      /\ o.replies[Len(o.replies)] = term[1]                              \* nothing after the terminal reply
      /\ Len(prog) = (IF E.rp THEN 1 ELSE 0)
      /\ \A i \in 1..Len(prog) : prog[i].t = "yield" /\ prog[i].req = E.req
-TNext == TOpen \/ TRx \/ TLost \/ TApi \/ TResolve \/ TProgress \/ TInvReal
+\* One session life on a real transport (WebSocket / RawSocket, this framework): joined with a call pending, then the
+\* transport is lost (cleanly or not) or the router says GOODBYE and the transport closes.  What the operators Open, Rx(welcome),
+\* Call, Rx(goodbye) / Lost produce, seen from outside: callbacks and listener events in the order connect, join, leave,
+\* disconnect, each once; the pending call fails; a later call fails at once.
+TLifeReal ==
+  /\ IsEvent("life") /\ UNCHANGED <<s, re>>
+  /\ LET o == E.obs IN
+     /\ o.esc = ""
+     /\ o.cbs = <<"onConnect", "onJoin", "onLeave", "onDisconnect">>
+     /\ o.evs = <<"connect", "join", "leave", "disconnect">>
+     /\ o.callDone = "err" /\ o.later = "TransportLost"
+     /\ (E.how = "goodbye" => o.dropped)                       \* after GOODBYE the client closes the transport itself
+TNext == TOpen \/ TRx \/ TLost \/ TApi \/ TResolve \/ TProgress \/ TInvReal \/ TLifeReal
 TraceSpec == TInit /\ [][TNext]_tvars
 Progress_ == TLCSet(tid, IF TLCGet(tid) < l THEN l ELSE TLCGet(tid))
 Post ==
